@@ -7,4 +7,6 @@ require (
 	pgregory.net/rapid v1.3.0
 )
 
+require github.com/google/uuid v1.6.0 // indirect
+
 replace github.com/glyphlang/glyph => /repo
